@@ -27,6 +27,7 @@ type rpCase struct {
 	Unused     bool                `json:"unused"`
 	Used       []string            `json:"used"`
 	Missing    []string            `json:"missing"`
+	Warm       []string            `json:"warm,omitempty"` // call prefix (SchemaApi_orders) after which the assertions are repeated
 }
 
 func rpRootText(ms []rpMention) string {
@@ -164,13 +165,29 @@ func rpPositions(cs rpCase) string {
 	return strings.Join(p, "+")
 }
 
+// rpEval judges the project on a fresh object and on one that has already answered cs.Warm.
 func rpEval(cs rpCase) []core.Finding {
+	fs := rpEvalAfter(cs, nil)
+	if len(cs.Warm) > 0 {
+		for _, f := range rpEvalAfter(cs, cs.Warm) {
+			f.Class += ":after-other-calls"
+			f.What = "after the calls " + strings.Join(cs.Warm, ", ") + " on the same object: " + f.What
+			fs = append(fs, f)
+		}
+	}
+	return fs
+}
+
+func rpEvalAfter(cs rpCase, warm []string) []core.Finding {
 	return core.Guard("references", func() []core.Finding {
 		s, err := rpBuild(cs, cs.Unused)
 		if err != nil {
 			return []core.Finding{{Class: "refs:addtype:" + rpPositions(cs), What: err.Error() + "\n" + rpDump(cs)}}
 		}
 		var fs []core.Finding
+		if p := warmUp(s, warm); p != "" {
+			return []core.Finding{{Class: "refs:panic", What: "panic " + p + "\n" + rpDump(cs)}}
+		}
 		used, uerr := s.UsedUserTypes()
 		var got []string
 		seen := map[string]bool{}
@@ -257,8 +274,14 @@ func runC05(c *core.Ctx) error {
 	if len(cases) == 0 {
 		return fmt.Errorf("no cases")
 	}
+	if _, err := loadCallOrders(); err != nil {
+		return err
+	}
+	for i := range cases {
+		cases[i].Warm = callPrefix(i, c.Seed)
+	}
 	core.ParallelFor(len(cases), func(i int) {
-		c.CountEval(1)
+		c.CountEval(2)
 		c.Report(cases[i], rpEval(cases[i]))
 	})
 	for _, cs := range cases {
